@@ -49,6 +49,7 @@ class C02(runner.Check):
         'algorithm': rng.choice(['SEQUENCE', 'SEQUENCE', 'GRID_SEARCH', 'QUASI_RANDOM_SEARCH', 'RANDOM_SEARCH']),
         'space': rng.choice(['int10', 'mixed']), 'epoch': simclock.EPOCH + rng.randrange(10**6),
     }
+    cfg['id_rot'] = rng.randrange(len(O.STUDY_IDS))  # which adversarial id the main study carries
     faults = []
     mode = rng.choice(['exact', 'exact', 'over', 'under', 'zero', 'mixed', 'mixed'])
     if mode != 'exact':
